@@ -15,17 +15,6 @@ def parentOf (t : Ty) : Option Ty := ((declared t).find? (fun r => !r.inferentia
 structure CellWF (x : Cell) : Prop where
   path_pure : x.isPath = true → x.isPurePath = true
 
-/-- dtypes that `Object` accepts -/
-def objectish (d : DKind) : Bool := d.isObject || (d.isStringNonObject && !d.isCategorical)
-
-/-- the columns on which the code breaks upward closure (known findings F26, F27; F24 was repaired) -/
-def Excl16 (child : Ty) (c : Column) : Bool :=
-  match child with
-  | .File => c.cells.any (fun x => !x.null && !x.pathAbs)                          -- F26: existing *relative* path
-  | .Date | .Time | .URL | .UUID | .EmailAddress | .Path | .Geometry | .IPAddress =>
-      !objectish c.dtype                                                           -- F27: objects inside a categorical
-  | _ => false
-
 theorem unsigned_integer (d : DKind) (h : d.isUnsigned = true) : d.isInteger = true := by
   cases d with
   | object => cases h
